@@ -18,6 +18,7 @@ import Driver.OpsSolvers
 import Driver.OpsApi
 import Driver.OpsGlue
 import Driver.OpsServe
+import Driver.OpsLegal
 namespace Driver
 
 def handlers : List Handler := [
@@ -40,6 +41,7 @@ def handlers : List Handler := [
   handleSolvers,
   handleApi,
   handleGlue,
+  handleLegal,
 ]
 
 def step (st : St) (line : String) : St × String :=
